@@ -124,9 +124,42 @@ def replay_inverse(st):
     return bad
 
 
+def replay_mixed(sts):
+    """per-sample weights that differ between the rows of one call: states of the same system with different
+    receptor weights are fitted together, row k with the weights (and against the oracle) of its own state"""
+    import_dreye()
+    from dreye.api.optimize.lsq_linear import lsq_linear
+    s = sts[0]["sys"]
+    A, lb, ub, K, bl = dsys.floats(s)
+    rows = []
+    for st in sts:
+        if any(v != 0 for v in st["w"]):
+            rows += [(st, f) for f in st["fits"] if not f["below"]][:6]
+    rows.sort(key=lambda r: (r[1]["b"], r[0]["w"]))
+    if len({tuple(r[0]["w"]) for r in rows}) < 2:
+        return []
+    B = np.array([dsys.b_float(s, f["b"]) for _, f in rows])
+    W = np.array([st["w"] for st, _ in rows], float)
+    where0 = dict(fam=sts[0]["fam"], mixedW=True, **dsys.sys_where(s))
+    bad = []
+    try:
+        Kf = None if K is None else np.atleast_1d(K)
+        X, Bp = lsq_linear(A, B, lb=lb, ub=ub, W=W, K=Kf, baseline=bl, return_pred=True)
+        for k, (st, f) in enumerate(rows):
+            bad += check_fit(s, st["w"], [f], np.asarray(X)[k:k + 1], np.asarray(Bp)[k:k + 1], "default", "lsq_linear(per-sample W)", where0)
+    except Exception as ex:
+        bad.append(("C04.no-error", dict(op="lsq_linear(per-sample W)", acc="default", exc=type(ex).__name__, below=False, **where0), None, repr(ex)[:200], None))
+    return bad
+
+
 def _chunk(args):
     sts, high = args
-    return [replay_state(st, high) for st in sts]
+    out = [replay_state(st, high) for st in sts]
+    # same system, different receptor weights -> one call with per-sample weights; reported on the first state
+    for g in grouped(list(range(len(sts))), lambda i: repr(sts[i]["sys"])):
+        if len(g) >= 2:
+            out[g[0]] = out[g[0]] + replay_mixed([sts[i] for i in g])
+    return out
 
 
 def run(ctx):
